@@ -1,0 +1,121 @@
+//! Verification hooks.
+//!
+//! Only compiled with `--cfg a10_verif`. Without that flag nothing in this
+//! file exists and nothing else in the crate changes.
+//!
+//! Two kinds of hooks:
+//!  * a table of functions that, when installed, are consulted by the raw
+//!    system call wrappers in `io_uring::libc` *before* making the real system
+//!    call. A function returning `None` falls through to the real call.
+//!  * scheduling points ([`yield_point`]) at the places where threads
+//!    synchronise (lock acquisition, loads/stores of memory shared with the
+//!    kernel, the polling state).
+
+#![allow(missing_docs, missing_debug_implementations, clippy::missing_safety_doc, clippy::type_complexity)]
+
+use std::ffi::{c_int, c_long, c_uint, c_void};
+use std::ptr;
+use std::sync::atomic::{AtomicPtr, Ordering};
+use std::sync::{Mutex, MutexGuard, TryLockError};
+
+/// Table of replacement functions, see the module documentation.
+pub struct Table {
+    pub io_uring_setup: Option<unsafe fn(entries: c_uint, params: *mut c_void) -> Option<c_int>>,
+    pub io_uring_enter2: Option<
+        unsafe fn(
+            fd: c_int,
+            to_submit: c_uint,
+            min_complete: c_uint,
+            flags: c_uint,
+            arg: *const c_void,
+            size: usize,
+        ) -> Option<c_int>,
+    >,
+    pub io_uring_register: Option<
+        unsafe fn(fd: c_int, opcode: c_uint, arg: *const c_void, nr_args: c_uint) -> Option<c_int>,
+    >,
+    pub mmap: Option<
+        unsafe fn(
+            addr: *mut c_void,
+            len: usize,
+            prot: c_int,
+            flags: c_int,
+            fd: c_int,
+            offset: c_long,
+        ) -> Option<*mut c_void>,
+    >,
+    pub munmap: Option<unsafe fn(addr: *mut c_void, len: usize) -> Option<c_int>>,
+    pub madvise: Option<unsafe fn(addr: *mut c_void, len: usize, advice: c_int) -> Option<c_int>>,
+    pub close: Option<unsafe fn(fd: c_int) -> Option<c_int>>,
+    /// Scheduling point, see [`points`] for the identifiers.
+    pub yield_point: Option<fn(point: u32)>,
+}
+
+impl Table {
+    pub const EMPTY: Table = Table {
+        io_uring_setup: None,
+        io_uring_enter2: None,
+        io_uring_register: None,
+        mmap: None,
+        munmap: None,
+        madvise: None,
+        close: None,
+        yield_point: None,
+    };
+}
+
+/// Identifiers passed to [`Table::yield_point`].
+pub mod points {
+    pub const LOCK: u32 = 1;
+    pub const LOCK_SPIN: u32 = 2;
+    pub const TRY_LOCK: u32 = 3;
+    pub const LOAD_KERNEL_SHARED: u32 = 4;
+    pub const STORE_SQ_TAIL: u32 = 5;
+    pub const STORE_CQ_HEAD: u32 = 6;
+    pub const STORE_BUF_RING_TAIL: u32 = 7;
+    pub const POLLING_STATE: u32 = 8;
+}
+
+static TABLE: AtomicPtr<Table> = AtomicPtr::new(ptr::null_mut());
+
+/// Install `table`, replacing the previous one (if any).
+pub fn install(table: &'static Table) {
+    TABLE.store(ptr::from_ref(table).cast_mut(), Ordering::SeqCst);
+}
+
+/// Remove the installed table.
+pub fn uninstall() {
+    TABLE.store(ptr::null_mut(), Ordering::SeqCst);
+}
+
+pub(crate) fn table() -> Option<&'static Table> {
+    let ptr = TABLE.load(Ordering::SeqCst);
+    // SAFETY: only set in `install` from a `'static` reference.
+    if ptr.is_null() { None } else { Some(unsafe { &*ptr }) }
+}
+
+/// Scheduling point.
+pub fn yield_point(point: u32) {
+    if let Some(Table { yield_point: Some(f), .. }) = table() {
+        f(point);
+    }
+}
+
+/// Replacement for `Mutex::lock` that never blocks in the OS when a scheduler
+/// is installed.
+pub(crate) fn lock_hook<'a, T>(mutex: &'a Mutex<T>) -> Option<MutexGuard<'a, T>> {
+    let Some(Table { yield_point: Some(f), .. }) = table() else {
+        return None;
+    };
+    f(points::LOCK);
+    loop {
+        match mutex.try_lock() {
+            Ok(guard) => return Some(guard),
+            Err(TryLockError::Poisoned(err)) => {
+                mutex.clear_poison();
+                return Some(err.into_inner());
+            }
+            Err(TryLockError::WouldBlock) => f(points::LOCK_SPIN),
+        }
+    }
+}
